@@ -7,6 +7,41 @@ import os
 ROOT = os.path.dirname(os.path.dirname(os.path.abspath(__file__)))
 
 CHECKS = {
+    "C04": dict(
+        category="exploration",
+        technique="Hypothesis-generated fail/skip/stop/onmatch/error programs under several error policies, per-line valid()/failed() taps, compared with the reference interpreter",
+        text="Programs with conditional fail(), fail_and_stop(), fail.onmatch(), fails behind false '->' conditions and after skip()/stop(), plus an argument-error component, under policies with and without 'fail'; is_valid after the run, the per-line valid()/failed() sequence captured first and last on every line (monotone and equal to the model), the returned lines and the collected error lines are compared. Group aggregation is exercised by C09's manifest checks.",
+        note="Trusted: reference interpreter + rule 'error handled under a fail policy => invalid'. The end-of-line tap on the very line an error is handled is not compared.",
+        design="5 C04",
+    ),
+    "C07": dict(
+        category="exploration",
+        technique="metamorphic relation between collect(), next(), fast_forward() and collect(nexts=n) on fresh instances over Hypothesis-generated programs",
+        text="For generated programs (general, control-function and fail/error shapes): collect() lines == next() lines; variables, counters, validity, stop state, errors, printouts identical after all three; for every n in 1..matches+1 collect(nexts=n) returns the first n lines and leaves exactly the state next() had at its n-th yield.",
+        note="No reference model: the relation is between runs of the real code. 'stopped' is not compared for early-exit collect(nexts=n).",
+        design="5 C07",
+    ),
+    "C08": dict(
+        category="exploration",
+        technique="differential testing: standalone CsvPath vs the same member under all six CsvPaths methods, over Hypothesis-generated groups",
+        text="Groups of 1-4 generated csvpaths (distinct ids, drawn order) over a generated table; every member's variables, validity, counters, errors, printouts (and lines for collecting methods) must equal its standalone run under collect_paths, fast_forward_paths, next_paths, collect_by_line, fast_forward_by_line, next_by_line (fresh CsvPaths per method); next_paths yields the concatenation and breadth-first runs yield the per-line union / (if_all_agree) intersection of the standalone decisions.",
+        note="Standalone behaviour is the oracle (checked separately by C01/C03). if_all_agree compared only when every member scans to end of file.",
+        design="5 C08",
+    ),
+    "C13": dict(
+        category="exploration",
+        technique="Hypothesis-generated side-effect programs with one control function at a drawn position, compared with the reference interpreter's control semantics",
+        text="1-5 side-effecting components (own-stack pushes of line_number(), prints, optional deciders) with stop()/stop(c)/c->stop(), skip forms, c->advance(n), fail_and_stop, last()->action, last.nocontrib()->action or bare last() at a drawn position firing on a drawn line, all scan windows, tables with interior/trailing blank records; returned lines, every stack, printouts, match_count, scan_count, validity compared.",
+        note="Trusted: reference interpreter control rules from the statement. Scan ending on an interior blank record with last() present is UNDEFINED; scan_count not compared in runs that advance.",
+        design="5 C13",
+    ),
+    "C16": dict(
+        category="exploration",
+        technique="Hypothesis-generated print templates (text and reference chunks in all arrangements) with expected output computed by the reference interpreter",
+        text="Templates of 1-6 chunks: text over letters/digits/spaces/punctuation and references to variables, stack index/length, headers by name/index, metadata and $.csvpath fields; documented '..' escape and name terminators; print, print.onmatch, print.once; two printers. Expected entries are text chunks plus str(value) at that point of that line.",
+        note="Trusted: reference interpreter values; renderer applies only the documented escaping. Templates do not start/end with whitespace; '~' excluded from text.",
+        design="5 C16",
+    ),
     "C01": dict(
         category="exploration",
         technique="Hypothesis-generated typed csvpath ASTs and CSV tables run through collect()/next(), compared line-for-line with a reference interpreter written from the docs",
